@@ -1,12 +1,15 @@
 #!/bin/sh
-# usage: tools/try_patch.sh <patch.diff> <ID> [<ID>...]   -- applies the patch to /repo, runs the quick checks, reverts.
+# usage: tools/try_patch.sh <patch.diff> <ID> [<ID>...]
+# Applies the patch in a scratch worktree of /repo HEAD (never in /repo), runs the checks against it, removes the worktree.
+# Evidence and replays of these runs go to a scratch directory, not to /verif.
 P="$1"; shift
-cd /repo || exit 2
-if [ -n "$(git status --porcelain)" ]; then echo "/repo not clean"; exit 2; fi
-git apply "$P" || git apply -3 "$P" || patch -p1 --no-backup-if-mismatch < "$P" || { echo "patch does not apply"; git checkout -- .; exit 2; }
+WT=$(mktemp -d /tmp/mutant-wt-XXXXXX); rmdir "$WT"
+git -C /repo worktree add -q --detach "$WT" HEAD || exit 2
+( cd "$WT" && { git apply "$P" 2>/dev/null || git apply -3 "$P" 2>/dev/null || patch -s -p1 --no-backup-if-mismatch < "$P"; } ) || { echo "PATCH DOES NOT APPLY"; git -C /repo worktree remove --force "$WT"; exit 2; }
+OUT=$(mktemp -d /tmp/mutant-out-XXXXXX)
 cd /verif
 for id in "$@"; do
-  ./check "$id" --tier "${TIER:-quick}" 2>&1 | grep -E "VIOLATION|signature=|quick:|thorough:|HARNESS" | head -12
+  VERIF_REPO="$WT" VERIF_OUT="$OUT" ./check "$id" --tier "${TIER:-quick}" 2>&1 | grep -E "VIOLATION|signature=|quick:|thorough:|HARNESS" | head -${LINES_MAX:-8}
 done
-cd /repo && git checkout -- . && git clean -fdq . >/dev/null 2>&1
-git -C /repo status --porcelain | head -3
+git -C /repo worktree remove --force "$WT"
+rm -rf "$OUT"
